@@ -32,8 +32,6 @@ Local Notation inv := (inv K V lower).
 Local Notation same_kind := (same_kind K V).
 Local Notation cls_ok := (cls_ok K V).
 Local Notation lookup_spec := (lookup_spec K V keqb lower).
-Local Notation op_ok := (op_ok K V keqb lower).
-Local Notation ops_ok := (ops_ok K V keqb lower).
 
 Lemma keqb_refl k : keqb k k = true.
 Proof. destruct (keqb_spec k k); congruence. Qed.
@@ -387,11 +385,11 @@ Qed.
 Local Notation step := (step K V keqb lower).
 Local Notation spec_step := (spec_step K V keqb lower).
 
-Theorem step_refines c o dflt : inv c -> cls_ok c dflt -> op_ok dflt (abs c) o = true ->
+Theorem step_refines c o dflt : inv c -> cls_ok c dflt ->
   spec_step dflt (abs c) o = (abs (fst (step c o)), snd (step c o)) /\
   inv (fst (step c o)) /\ cls_ok (fst (step c o)) dflt.
 Proof.
-  intros I C OK. destruct o as [k v|k|k|k|k d|k d| |k d|kvs| |]; cbn [step spec_step CIDict.step CIMap.spec_step fst snd].
+  intros I C. destruct o as [k v|k|k|k|k d|k d| |k d|kvs| |]; cbn [step spec_step CIDict.step CIMap.spec_step fst snd].
   - (* setitem *) destruct (setitem_abs c k v I) as (A & I' & SK). rewrite A.
     split; [reflexivity|]. split; [exact I' | exact (cls_ok_same _ _ _ SK C)].
   - (* getitem *) cbn. rewrite (getitem_abs c k dflt I C). unfold lookup_spec, ret_val.
@@ -432,12 +430,27 @@ Proof.
     destruct (abs c) as [|[kl [sp v]] r] eqn:E.
     + destruct H as [-> ->]. cbn. rewrite E. split; [reflexivity | split; assumption].
     + destruct H as [-> A]. cbn. rewrite A. split; [reflexivity|]. split; [exact I' | exact (cls_ok_same _ _ _ SK C)].
-  - (* setdefault *) unfold ci_setdefault. rewrite (getitem_abs c k dflt I C). unfold lookup_spec.
-    unfold op_ok in OK. rewrite shas_sget in OK.
+  - (* setdefault *)
+    assert (E : (let (c', r) := ci_setdefault K V keqb lower c k d in (c', ret_val K V r)) =
+                (fst (ci_setdefault K V keqb lower c k d), ret_val K V (snd (ci_setdefault K V keqb lower c k d)))).
+    { destruct (ci_setdefault K V keqb lower c k d). reflexivity. }
+    rewrite E. cbn [fst snd]. clear E.
+    destruct (setitem_abs c k d I) as (A & I' & SK).
+    assert (BS : dflt = None ->
+              (match sget (abs c) k with Some v => (abs c, EOk (RVal v)) | None => (sset (abs c) k d, EOk (RVal d)) end) =
+                (abs (fst (base_setdefault K V keqb lower c k d)), ret_val K V (snd (base_setdefault K V keqb lower c k d))) /\
+              inv (fst (base_setdefault K V keqb lower c k d)) /\ cls_ok (fst (base_setdefault K V keqb lower c k d)) dflt).
+    { intros ->. unfold base_setdefault. rewrite (getitem_abs c k None I C). unfold lookup_spec.
+      destruct (sget (abs c) k) as [v|] eqn:G.
+      + cbn. split; [reflexivity | split; assumption].
+      + cbn [fst snd]. rewrite A. split; [reflexivity|]. split; [exact I' | exact (cls_ok_same _ _ _ SK C)]. }
+    unfold ci_setdefault. pose proof C as C0. unfold CIRel.cls_ok in C0.
+    destruct (c_cls K V c) eqn:EC; [apply BS; exact C0 | apply BS; exact C0 |].
+    rewrite (contains_abs c k I), shas_sget. cbn [fst snd].
     destruct (sget (abs c) k) as [v|] eqn:G.
-    + cbn. split; [reflexivity | split; assumption].
-    + destruct dflt; [discriminate|]. cbn [fst snd]. destruct (setitem_abs c k d I) as (A & I' & SK). rewrite A.
-      split; [reflexivity|]. split; [exact I' | exact (cls_ok_same _ _ _ SK C)].
+    + rewrite (getitem_abs c k dflt I C). unfold lookup_spec. rewrite G. cbn. split; [reflexivity | split; assumption].
+    + pose proof (cls_ok_same _ _ _ SK C) as C'. rewrite (getitem_abs _ k dflt I' C'). unfold lookup_spec, sm_get.
+      rewrite A. unfold sm_set. rewrite sput_find, keqb_refl. cbn. split; [reflexivity | split; assumption].
   - (* update *) destruct (update_abs kvs c I) as (A & I' & SK). rewrite A.
     split; [reflexivity|]. split; [exact I' | exact (cls_ok_same _ _ _ SK C)].
   - (* clear *) unfold ci_clear.
@@ -458,21 +471,17 @@ Proof.
   - apply map_ext. intros p. apply (getitem_abs c p dflt I C).
 Qed.
 
-Lemma ops_ok_none m ops : ops_ok None m ops = true.
-Proof. revert m. induction ops as [|o r IH]; intros m; cbn; auto. Qed.
-
-Theorem run_refines_gen dflt probes : forall ops c, inv c -> cls_ok c dflt -> ops_ok dflt (abs c) ops = true ->
+Theorem run_refines_gen dflt probes : forall ops c, inv c -> cls_ok c dflt ->
   run K V keqb lower probes c ops = spec_run K V keqb lower dflt probes (abs c) ops /\
   abs (run_state K V keqb lower c ops) = spec_state K V keqb lower dflt (abs c) ops /\
   inv (run_state K V keqb lower c ops).
 Proof.
-  induction ops as [|o r IH]; intros c I C OK; cbn [run spec_run run_state spec_state ops_ok] in *.
+  induction ops as [|o r IH]; intros c I C; cbn [run spec_run run_state spec_state] in *.
   - auto.
-  - apply andb_true_iff in OK. destruct OK as [OK1 OK2].
-    destruct (step_refines c o dflt I C OK1) as (E & I' & C').
+  - destruct (step_refines c o dflt I C) as (E & I' & C').
     rewrite E in *. cbn [fst snd] in *.
     destruct (step c o) as [c' x] eqn:ES. cbn [fst snd] in *.
-    destruct (IH c' I' C' OK2) as (R1 & R2 & R3).
+    destruct (IH c' I' C') as (R1 & R2 & R3).
     rewrite R1, (observe_abs c' dflt probes I' C'). auto.
 Qed.
 
@@ -502,7 +511,11 @@ Proof.
     rewrite E. unfold ci_pop. destruct (c_cls K V c); try apply BP.
     destruct d; [|apply BP]. destruct (contains c k); [apply BP | exact I].
   - pose proof (popitem_inv c I) as P. destruct (ci_popitem K V keqb lower c). exact P.
-  - unfold ci_setdefault. destruct (getitem c k) as [v|[|]]; [exact I | apply setitem_abs; exact I | exact I].
+  - assert (E : fst (let (c', r) := ci_setdefault K V keqb lower c k d in (c', ret_val K V r)) = fst (ci_setdefault K V keqb lower c k d))
+      by (destruct (ci_setdefault K V keqb lower c k d); reflexivity).
+    rewrite E. unfold ci_setdefault, base_setdefault.
+    destruct (c_cls K V c); try (destruct (getitem c k) as [v|[|]]; [exact I | apply setitem_abs; exact I | exact I]).
+    cbn. destruct (contains c k); [exact I | apply setitem_abs; exact I].
   - apply update_abs. exact I.
   - unfold ci_clear. pose proof (clear_inv (S (length (c_keys K V c))) c I) as P.
     destruct (clear_loop K V keqb lower (S (length (c_keys K V c))) c). exact P.
@@ -543,18 +556,19 @@ Theorem run_refines cl pairs probes ops : cl <> ClsDefault ->
   spec_run K V keqb lower None probes (sm_update K V keqb lower [] pairs) ops.
 Proof.
   intros N. destruct (init_abs cl pairs) as [A I]. rewrite <- A.
-  apply run_refines_gen; [exact I | | apply ops_ok_none].
+  apply run_refines_gen; [exact I |].
   destruct (update_abs pairs _ (empty_inv cl FacNone)) as (_ & _ & SK).
   apply (cls_ok_same _ _ _ SK). unfold CIRel.cls_ok. cbn. destruct cl; congruence.
 Qed.
 (* the constructor is the sequence of insertions of its pairs *)
 Theorem init_refines cl pairs : abs (ci_init K V keqb lower cl pairs) = sm_update K V keqb lower [] pairs.
 Proof. apply init_abs. Qed.
-Theorem default_run_refines_partial d0 probes ops : ops_ok (Some d0) [] ops = true ->
+(* the defaulting variant: every history refines the reference map with default d0 *)
+Theorem default_run_refines d0 probes ops :
   run K V keqb lower probes (default_init K V (FacVal d0)) ops =
   spec_run K V keqb lower (Some d0) probes [] ops.
 Proof.
-  intros OK. apply (run_refines_gen (Some d0) probes ops (default_init K V (FacVal d0))); auto.
+  apply (run_refines_gen (Some d0) probes ops (default_init K V (FacVal d0))).
   - apply empty_inv.
   - reflexivity.
 Qed.
@@ -666,15 +680,28 @@ Proof.
   intros I C H. cbn. rewrite (getitem_abs c k (Some d0) I C). rewrite (contains_abs c k I), shas_sget in H.
   unfold CIRel.lookup_spec. destruct (sget (abs c) k); [discriminate | reflexivity].
 Qed.
-(* ... and so do its get and setdefault (the reading of the property text the check accepts) *)
-Theorem default_get_setdefault_no_insert c k d d0 : inv c -> cls_ok c (Some d0) -> contains c k = false ->
-  step c (OGetD k d) = (c, EOk (RVal d0)) /\ step c (OSetdefault k d0) = (c, EOk (RVal d0)) /\
-  forall x, step c (OSetdefault k x) = (c, EOk (RVal d0)).
+(* ... and so does its get(k, d): it yields the factory's default, not d, and does not insert *)
+Theorem default_get_no_insert c k d d0 : inv c -> cls_ok c (Some d0) -> contains c k = false ->
+  step c (OGetD k d) = (c, EOk (RVal d0)).
 Proof.
-  intros I C H. cbn. unfold ci_get, ci_setdefault. rewrite (getitem_abs c k (Some d0) I C).
+  intros I C H. cbn. unfold ci_get. rewrite (getitem_abs c k (Some d0) I C).
   rewrite (contains_abs c k I), shas_sget in H.
   unfold CIRel.lookup_spec. destruct (sget (abs c) k); [discriminate | auto].
 Qed.
+(* ... while setdefault(k, x) inserts x and returns it, in every class *)
+Theorem setdefault_absent_inserts c k x dflt : inv c -> cls_ok c dflt -> contains c k = false ->
+  step c (OSetdefault k x) = (setitem c k x, EOk (RVal x)).
+Proof.
+  intros I C H. destruct (step_refines c (OSetdefault k x) dflt I C) as (E & _).
+  cbn [spec_step CIMap.spec_step] in E. rewrite (contains_abs c k I), shas_sget in H.
+  destruct (sget (abs c) k) eqn:G; [discriminate|].
+  destruct (step c (OSetdefault k x)) as [c' r] eqn:ES. cbn [fst snd] in E. injection E as E1 E2. rewrite <- E2. f_equal.
+  cbn in ES. unfold ci_setdefault, base_setdefault in ES. rewrite (getitem_abs c k dflt I C) in ES.
+  unfold CIRel.lookup_spec in ES. rewrite G in ES.
+  rewrite (contains_abs c k I), shas_sget, G in ES.
+  unfold CIRel.cls_ok in C. destruct (c_cls K V c); destruct dflt; try discriminate; try contradiction; cbn in ES; congruence.
+Qed.
+
 (* lower() lower-cases the spellings and nothing else: same keys, same order, same values, same lookups *)
 Theorem lower_lowers_keys_only c dflt : inv c -> cls_ok c dflt ->
   exists c' its, step c OLower = (c', EOk RNone) /\ ci_items K V keqb lower c = EOk its /\
@@ -737,42 +764,12 @@ Qed.
 Theorem default_no_insert_r c k d0 : reachable K V keqb lower c -> cls_ok c (Some d0) -> contains c k = false ->
   step c (OGet k) = (c, EOk (RVal d0)).
 Proof. intros R. apply default_no_insert. apply reachable_inv, R. Qed.
-Theorem default_get_setdefault_no_insert_r c k d d0 : reachable K V keqb lower c -> cls_ok c (Some d0) -> contains c k = false ->
-  step c (OGetD k d) = (c, EOk (RVal d0)) /\ forall x, step c (OSetdefault k x) = (c, EOk (RVal d0)).
-Proof. intros R C H. destruct (default_get_setdefault_no_insert c k d d0 (reachable_inv c R) C H) as (A & _ & B). auto. Qed.
-(* ------------------------------------------------------------------ the defaulting variant, every operation *)
-Lemma dstep_refines c o d0 : inv c -> cls_ok c (Some d0) ->
-  dspec_step K V keqb lower d0 (abs c) o = (abs (fst (step c o)), snd (step c o)) /\
-  inv (fst (step c o)) /\ cls_ok (fst (step c o)) (Some d0).
-Proof.
-  intros I C.
-  assert (G : op_ok (Some d0) (abs c) o = true -> dspec_step K V keqb lower d0 (abs c) o = spec_step (Some d0) (abs c) o ->
-              dspec_step K V keqb lower d0 (abs c) o = (abs (fst (step c o)), snd (step c o)) /\
-              inv (fst (step c o)) /\ cls_ok (fst (step c o)) (Some d0)).
-  { intros OK E. rewrite E. apply step_refines; assumption. }
-  destruct o as [k v|k|k|k|k d|k d| |k d|kvs| |]; try (apply G; reflexivity).
-  (* setdefault *) destruct (shas (abs c) k) eqn:H.
-  - apply G; [exact H|]. cbn. rewrite shas_sget in H. destruct (sget (abs c) k); [reflexivity | discriminate].
-  - rewrite <- (contains_abs c k I) in H.
-    destruct (default_get_setdefault_no_insert c k None d0 I C H) as (_ & _ & E). rewrite (E d). cbn.
-    rewrite (contains_abs c k I), shas_sget in H. destruct (sget (abs c) k); [discriminate | auto].
-Qed.
-
-Theorem default_run_refines_quirks_gen d0 probes : forall ops c, inv c -> cls_ok c (Some d0) ->
-  run K V keqb lower probes c ops = dspec_run K V keqb lower d0 probes (abs c) ops.
-Proof.
-  induction ops as [|o r IH]; intros c I C; cbn [run dspec_run] in *; [reflexivity|].
-  destruct (dstep_refines c o d0 I C) as (E & I' & C'). rewrite E.
-  destruct (step c o) as [c' x] eqn:ES. cbn [fst snd] in *.
-  rewrite (observe_abs c' (Some d0) probes I' C'), (IH c' I' C'). reflexivity.
-Qed.
-Theorem default_run_refines_quirks d0 probes ops :
-  run K V keqb lower probes (default_init K V (FacVal d0)) ops = dspec_run K V keqb lower d0 probes [] ops.
-Proof.
-  apply (default_run_refines_quirks_gen d0 probes ops (default_init K V (FacVal d0))).
-  - apply empty_inv.
-  - reflexivity.
-Qed.
+Theorem default_get_no_insert_r c k d d0 : reachable K V keqb lower c -> cls_ok c (Some d0) -> contains c k = false ->
+  step c (OGetD k d) = (c, EOk (RVal d0)).
+Proof. intros R. apply default_get_no_insert. apply reachable_inv, R. Qed.
+Theorem setdefault_absent_inserts_r c k x dflt : reachable K V keqb lower c -> cls_ok c dflt -> contains c k = false ->
+  step c (OSetdefault k x) = (setitem c k x, EOk (RVal x)).
+Proof. intros R. apply setdefault_absent_inserts. apply reachable_inv, R. Qed.
 
 (* every reachable container has a working class/default pairing: the hypothesis cls_ok of the corollaries
    is always satisfiable *)
@@ -782,9 +779,7 @@ Proof.
   - exists None. destruct (update_abs pairs _ (empty_inv cl FacNone)) as (_ & _ & SK).
     apply (cls_ok_same _ _ _ SK). unfold CIRel.cls_ok. cbn. destruct cl; congruence.
   - exists (Some d0). reflexivity.
-  - exists dflt. pose proof (reachable_inv c R) as I. destruct dflt as [d0|].
-    + apply (dstep_refines c o d0 I C).
-    + apply (step_refines c o None I C). reflexivity.
+  - exists dflt. apply (step_refines c o dflt (reachable_inv c R) C).
 Qed.
 
 End P.
